@@ -1,6 +1,7 @@
 """Class predicates of the known findings (known_findings.json). Each takes (case, violation) and decides whether the
 violation belongs to the finding's specific class of inputs / call sites. Kept deliberately narrow."""
 
+import os
 
 def _spec(case):
     return case.get('spec', case)
@@ -351,10 +352,21 @@ def _option_with_other_deriver(spec):
     for u, w in spec.get('edges', []):
         n_in[w] = n_in.get(w, 0)+1
     n_opt = {}
+    origins_of = {}
     for c in spec.get('choices', []):
         for o in c['opts']:
             n_opt[o] = n_opt.get(o, 0)+1
-    return any(n_opt[o] > 1 or n_in.get(o, 0) > 0 for o in n_opt)
+            origins_of.setdefault(o, []).append(c['origin'])
+    has_out = {u for u, _ in spec.get('edges', [])} | {c['origin'] for c in spec.get('choices', [])}
+
+    def harmless(o):
+        # a leaf option node (derives nothing, carries no choice, no derivation in-edge) shared by choices on DIFFERENT
+        # originating nodes: whichever choice selects it, the same is confirmed (only the node itself), so the per-node
+        # bookkeeping of the influence matrix cannot mix anything up (unless the node takes part in an incompatibility:
+        # the 'infeasible option' flag is per node too)
+        return n_in.get(o, 0) == 0 and o not in has_out and \
+            len(set(origins_of[o])) == len(origins_of[o]) and not any(o in p_ for p_ in spec.get('incompat', []))
+    return any((n_opt[o] > 1 or n_in.get(o, 0) > 0) and not harmless(o) for o in n_opt)
 
 
 def influence_matrix_shared_option(case, v):
